@@ -172,12 +172,13 @@ Inductive op :=
 | OSet (o : nat) (g v : Z)            (* obj.grp = g; obj.val = v *)
 | OFlush
 | OCommit
-| ODelete (o : nat)                   (* session.flush(); session.delete(obj); session.flush() *)
+| ODelete (os : list nat)             (* session.flush(); session.delete(obj) for each; session.flush() *)
 | OQuery (q : qry) (tgt : option sid) (legacy : bool)
     (* session.execute(select(T).where(q).order_by(T.pk)).scalars().all() [on one shard], or the legacy
        session.query(T).filter(q).order_by(T.pk).all(), which removes repeated entities (Query._iter: unique()) *)
 | OGet (k : Z) (t : option sid)       (* session.get(T, k [, identity_token=t]) *)
-| ORefresh (o : nat).                 (* session.refresh(obj) *)
+| ORefresh (o : nat)                  (* session.refresh(obj) *)
+| OMerge (r : row) (t : sid).         (* session.merge(<detached T(r) whose identity key carries token t>) *)
 
 Section Choosers.
   Variable shard_chooser : row -> sid.
@@ -226,23 +227,38 @@ Section Choosers.
     | Ok st1 => Ok (mkSess (insts st1) (db st1) (db st1) (wlog st1) (rlog st1))
     end.
 
-  Definition do_delete (st : sess) (o : nat) : res sess :=
+  (* DELETE FROM t WHERE pk = ? for one persistent object, on the shard of its identity token *)
+  Definition delete_one (st : sess) (o : nat) : res sess :=
     match nth_error (insts st) o with
     | Some i0 =>
         match i_life i0, i_tok i0 with
         | Persistent, Some t =>
-            match flush st with
-            | Err e => Err e
-            | Ok st1 =>
-                let k := r_pk (i_cur i0) in
-                Ok (mkSess (upd_nth o (fun i => mkInst (i_cur i) (i_old i) Gone (i_tok i)) (insts st1))
-                           (upd (db st1) t (sql_delete k (db st1 t))) (committed st1)
-                           (wlog st1 ++ [WDel t k]) (rlog st1))
-            end
+            let k := r_pk (i_cur i0) in
+            Ok (mkSess (upd_nth o (fun i => mkInst (i_cur i) (i_old i) Gone (i_tok i)) (insts st))
+                       (upd (db st) t (sql_delete k (db st t))) (committed st)
+                       (wlog st ++ [WDel t k]) (rlog st))
         | _, _ => Err EInvalid
         end
     | None => Err EInvalid
     end.
+  Fixpoint delete_all (st : sess) (os : list nat) : res sess :=
+    match os with
+    | [] => Ok st
+    | o :: r => match delete_one st o with Ok st' => delete_all st' r | Err e => Err e end
+    end.
+  Definition valid_del (st : sess) (o : nat) : bool :=
+    match nth_error (insts st) o with
+    | Some i => match i_life i, i_tok i with Persistent, Some _ => true | _, _ => false end
+    | None => false
+    end.
+  (* several objects deleted in ONE flush: one DELETE per object (identity = (pk, token)) *)
+  Definition do_delete (st : sess) (os : list nat) : res sess :=
+    if forallb (valid_del st) os then
+      match flush st with
+      | Err e => Err e
+      | Ok st1 => delete_all st1 (dedup os)
+      end
+    else Err EInvalid.
 
   Definition do_set (st : sess) (o : nat) (g v : Z) : res sess :=
     match nth_error (insts st) o with
@@ -316,6 +332,26 @@ Section Choosers.
     | None => Err EInvalid
     end.
 
+  (* Session.merge(load=True) of a detached object with identity key (T, pk, t): autoflush; the target is
+     the object under (pk, t) in the identity map, else get(T, pk, identity_token=t) (one SELECT on shard
+     t), else a new pending instance; the given attribute values are copied onto the target *)
+  Definition do_merge (st : sess) (r : row) (t : sid) : res (sess * option nat) :=
+    match flush st with
+    | Err e => Err e
+    | Ok st1 =>
+        match do_get st1 (r_pk r) (Some t) with
+        | Err e => Err e
+        | Ok (st2, Some o) =>
+            match do_set st2 o (r_grp r) (r_val r) with
+            | Ok st3 => Ok (st3, Some o)
+            | Err e => Err e
+            end
+        | Ok (st2, None) =>
+            Ok (mkSess (insts st2 ++ [mkInst r r Pending None]) (db st2) (committed st2) (wlog st2) (rlog st2),
+                Some (length (insts st2)))
+        end
+    end.
+
   Definition step (st : sess) (o : op) : res (sess * ret) :=
     match o with
     | OAdd r pre =>
@@ -331,6 +367,7 @@ Section Choosers.
         end
     | OGet k t => match do_get st k t with Ok (s, r) => Ok (s, ROpt r) | Err e => Err e end
     | ORefresh n => match do_refresh st n with Ok s => Ok (s, RNone) | Err e => Err e end
+    | OMerge r t => match do_merge st r t with Ok (s, o) => Ok (s, ROpt o) | Err e => Err e end
     end.
 
   (* a program: the run stops at the first error *)
